@@ -45,14 +45,16 @@ pub enum State<'a, 'p> {
     BinaryOp { span: Option<SpanId>, op: ast::BinaryOp },
     CallMarker(PhantomData<&'a ()>),
 }
-pub struct Program<'p> { pub max_stack: usize, pub super_field: Option<GcView<ThunkData<'p>>> }
+pub struct Program<'p> {
+//@extract file=rsjsonnet-lang/src/program/mod.rs struct=Program fields=max_stack
+    pub super_field: Option<GcView<ThunkData<'p>>> }
 impl<'p> Program<'p> {
     // shim: the real lookup walks the object's layers; here the answer is a harness-chosen value
     pub fn find_object_field_thunk(&self, object: &GcView<ObjectData<'p>>, layer: usize, name: InternedStr<'p>) -> Option<GcView<ThunkData<'p>>> { self.super_field.clone() }
 }
 pub struct Evaluator<'a, 'p> {
     program: &'a mut Program<'p>,
-    stack_trace_len: usize,
+//@extract file=rsjsonnet-lang/src/program/eval/mod.rs struct=Evaluator fields=stack_trace_len
     state_stack: Vec<State<'a, 'p>>,
     value_stack: Vec<ValueData<'p>>,
 }
@@ -145,9 +147,14 @@ mod vharness {
         assert!(tag_of(&t) == 0, "C04:evalcore:done-is-final");
     }
 
-    fn ev<'a>(p: &'a mut Program<'static>, len: usize) -> Evaluator<'a, 'static> {
-        Evaluator { program: p, stack_trace_len: len, state_stack: Vec::new(), value_stack: Vec::new() }
+    // The counter's TYPE is the real struct's (spliced in by `fields=`); the harness speaks about it only through
+    // these three helpers, so a change of its width is verified as changed instead of breaking the unit.
+    fn ev<'a>(p: &'a mut Program<'static>, len: u128) -> Evaluator<'a, 'static> {
+        Evaluator { program: p, stack_trace_len: len as _, state_stack: Vec::new(), value_stack: Vec::new() }
     }
+    fn ctr(e: &Evaluator<'_, '_>) -> i128 { e.stack_trace_len as i128 }
+    /// largest value the counter can hold
+    fn ctr_max() -> u128 { let mut p = Program { max_stack: 0, super_field: None }; let mut e = ev(&mut p, 0); e.stack_trace_len = !0; e.stack_trace_len as u128 }
     /// weighted sum of the invariant T over the state stack: TraceItem +1, DelayedTraceItem -1
     fn weight(ev: &Evaluator<'_, '_>) -> i64 {
         let mut w = 0i64; let mut i = 0;
@@ -163,7 +170,7 @@ mod vharness {
         let has_super: bool = kani::any();
         let sup = if has_super { Some(any_thunk().0) } else { None };
         let mut prog = Program { max_stack: kani::any(), super_field: sup };
-        let len0: usize = kani::any(); kani::assume(len0 < 1usize << 62);
+        let len0: u128 = kani::any(); kani::assume(len0 < ctr_max() / 2);
         let mut e = ev(&mut prog, len0);
         let r = e.arm_do_thunk(t.clone());
         match r {
@@ -177,12 +184,12 @@ mod vharness {
                     assert!(e.state_stack.len() >= 2, "C04:evalcore:pending-thunk-schedules-its-computation");
                     assert!(matches!(&e.state_stack[0], State::GotThunk(g) if std::ptr::eq(g.0, t.0)), "C04:evalcore:result-is-stored-back-into-this-thunk-after-the-computation");
                 }
-                assert!(e.stack_trace_len as i64 - len0 as i64 == weight(&e), "C10:evalcore:trace-length-tracks-pushed-trace-items");
+                assert!(ctr(&e) - len0 as i128 == weight(&e) as i128, "C10:evalcore:trace-length-tracks-pushed-trace-items");
                 // thunk chains (C10): forcing a thunk from within a thunk is a nesting level, so every
                 // DoThunk this arm schedules comes with one counted trace frame
                 let mut n_nested = 0i64; let mut i = 0;
                 while i < e.state_stack.len() { if matches!(e.state_stack[i], State::DoThunk(_)) { n_nested += 1; } i += 1; }
-                assert!(n_nested <= 1 && e.stack_trace_len as i64 - len0 as i64 == n_nested, "C10:evalcore:a-thunk-forced-from-within-a-thunk-is-a-counted-frame");
+                assert!(n_nested <= 1 && ctr(&e) - len0 as i128 == n_nested as i128, "C10:evalcore:a-thunk-forced-from-within-a-thunk-is-a-counted-frame");
             }
         }
     }
@@ -211,35 +218,36 @@ mod vharness {
     fn trace_len_invariant_step() {
         let mut prog = Program { max_stack: kani::any(), super_field: None };
         // an arbitrary state-stack suffix of up to 2 accounting items and a counter satisfying T with an arbitrary rest-of-stack sum
-        let rest: usize = kani::any(); kani::assume(rest < 1usize << 62);
+        let rest: u128 = kani::any(); kani::assume(rest < ctr_max() / 2);
         let mut e = ev(&mut prog, 0);
         let a: u8 = kani::any();
         if a == 1 { e.state_stack.push(State::TraceItem(TraceItem::Other)); } else if a == 2 { e.state_stack.push(State::DelayedTraceItem); }
         let w0 = weight(&e);
-        kani::assume(rest as i64 + w0 >= 0);
-        e.stack_trace_len = (rest as i64 + w0) as usize;        // T holds: len = rest + weight(visible part)
+        kani::assume(rest as i128 + w0 as i128 >= 0);
+        e.stack_trace_len = (rest as i128 + w0 as i128) as _;        // T holds: len = rest + weight(visible part)
         let op: u8 = kani::any();
         match op {
-            0 => { kani::assume(e.stack_trace_len < usize::MAX); e.push_trace_item(TraceItem::Other); }
+            0 => { e.push_trace_item(TraceItem::Other); }
             1 => { kani::assume(e.stack_trace_len >= 1); e.delay_trace_item(); }   // requires: inside a traced frame (callers push a trace item first)
             2 => { kani::assume(a == 1); e.state_stack.pop(); e.arm_trace_item(); }
-            _ => { kani::assume(a == 2 && e.stack_trace_len < usize::MAX); e.state_stack.pop(); e.arm_delayed_trace_item(); }
+            _ => { kani::assume(a == 2); e.state_stack.pop(); e.arm_delayed_trace_item(); }
         }
-        assert!(e.stack_trace_len as i64 == rest as i64 + weight(&e), "C10:evalcore:invariant-T-preserved-by-every-accounting-primitive");
+        assert!(ctr(&e) == rest as i128 + weight(&e) as i128, "C10:evalcore:invariant-T-preserved-by-every-accounting-primitive");
     }
 
-    //@harness props=C10 strength=proof clause="frame-limit test: an evaluation step ends with StackOverflow exactly when the counter exceeds the configured limit; hence a run that never exceeds s passes the same tests under any s' >= s (raising the limit never changes a successful outcome)"
+    //@harness props=C10 strength=proof clause="frame-limit test: an evaluation step ends with StackOverflow exactly when the counter exceeds the configured limit; hence a run that never exceeds s passes the same tests under any s' >= s (raising the limit never changes a successful outcome)" replay=limit
     #[kani::proof]
     #[kani::unwind(6)]
     fn limit_test_contract() {
-        let (s, s2): (usize, usize) = (kani::any(), kani::any());
-        let len: usize = kani::any();
-        let mut p1 = Program { max_stack: s, super_field: None };
+        // the limit is whatever type the real Program::max_stack has (spliced in), the depth any value the counter can hold
+        let mut p1 = Program { max_stack: kani::any(), super_field: None };
+        let s = p1.max_stack as u128;
+        let len: u128 = kani::any(); kani::assume(len <= ctr_max());
         let r1 = ev(&mut p1, len).limit_test();
         match &r1 { Err(e) => assert!(len > s && matches!(e.kind, EvalErrorKind::StackOverflow), "C10:evalcore:overflow-reported-only-above-the-limit"),
                     Ok(()) => assert!(len <= s, "C10:evalcore:depth-above-the-limit-is-always-stopped") }
-        kani::assume(s2 >= s);
-        let mut p2 = Program { max_stack: s2, super_field: None };
+        let mut p2 = Program { max_stack: kani::any(), super_field: None };
+        kani::assume(p2.max_stack as u128 >= s);
         let r2 = ev(&mut p2, len).limit_test();
         assert!(!(r1.is_ok() && r2.is_err()), "C10:evalcore:raising-the-limit-never-turns-success-into-overflow");
     }
